@@ -46,7 +46,7 @@ Inductive nop :=
 | RemoveAllow (k : N) (parses : bool)
 | SetAllow (k : N) (parses : bool)
 | AddInvoice
-| ChannelRequest (d : N)                (* a channel request that the channel refuses *)
+| ChannelRequest (d : N)                (* a channel request that the channel refuses, or a setup_channel that policy refuses *)
 | NRestart.
 
 Definition set_slot (s : nnode) (d : N) (k : skind) (dk : skind) : nnode :=
